@@ -1,9 +1,119 @@
 import BronVerif.Drive.Common
-/-! Driver handlers for C07. -/
+import BronVerif.Model.Joint
+/-! Driver handlers for C07 (paired runs: which messages / joint values change when one party's
+    random stream is replaced).  Line formats: see harness/c07.go. -/
 namespace BronVerif.Drive.C07
-open BronVerif BronVerif.Drive
+open BronVerif BronVerif.Drive BronVerif.Joint
 
-def handle (op : String) (_args : List String) (_rhs : String) : Verdict :=
-  .unsupported ("C07 op " ++ op)
+/-- `key=value` argument -/
+def argVal (args : List String) (key : String) : Option String :=
+  args.findSome? fun a => if a.startsWith (key ++ "=") then some (a.drop (key.length + 1)).toString else none
+
+def rhsVal (rhs : String) (key : String) : Option String := argVal (rhs.splitOn " ") key
+
+def parseIds (s : String) : Option (List Nat) := (splitComma s).mapM String.toNat?
+
+/-- `name=flag` items -/
+def parseFlags (s : String) : List (String × String) :=
+  (splitComma s).map fun it =>
+    match it.splitOn "=" with
+    | [a, b] => (a, b)
+    | _ => (it, "?")
+
+/-- the verdict for one observed flag against the model's demand; `none` = fine -/
+def judge (what : String) (e : Exp) (flag : String) : Option Verdict :=
+  match e, flag with
+  | .free, "c" => none
+  | .free, "s" => none
+  | .mustChange, "c" => none
+  | .mustChange, "s" => some (.bad "unchanged" (what ++ " does not change although it must depend on the changed party's stream"))
+  | .mustSame, "s" => none
+  | .mustSame, "c" => some (.bad "first-message-changed" (what ++ " is another party's first message and changed with a stream it cannot depend on"))
+  | .change, "c" => none
+  | .same, "s" => none
+  | .change, "s" => some (.diff (what ++ "=c"))
+  | .same, "c" => some (.diff (what ++ "=s"))
+  | _, f => some (.diff (what ++ " flag " ++ f))
+
+/-- first `bad`, else first other failure, else ok -/
+def combine (vs : List (Option Verdict)) : Verdict :=
+  let fs := vs.filterMap id
+  match fs.find? (fun v => match v with | .bad .. => true | _ => false) with
+  | some b => b
+  | none => fs.headD .ok
+
+def handlePair (name cfg : String) (ids : List Nat) (c : Nat) (rhs : String) : Verdict :=
+  match lookup name cfg ids, rhsVal rhs "status", rhsVal rhs "msgs", rhsVal rhs "joint" with
+  | some spec, some status, some msgs, some joint =>
+    if status != "ok" then .diff "status=ok" else
+    let want := slots ids spec.rounds
+    let got := parseFlags msgs
+    if want.map Slot.name != got.map (·.1) then
+      .diff ("slots=" ++ joinComma (want.map Slot.name))
+    else
+      let gotJ := parseFlags joint
+      if spec.joint.map (·.name) != gotJ.map (·.1) then
+        .diff ("joint=" ++ joinComma (spec.joint.map (·.name)))
+      else
+        combine ((want.zip got).map (fun (s, g) => judge ("message " ++ s.name) (s.expect c) g.2) ++
+                 (spec.joint.zip gotJ).map (fun (j, g) => judge ("joint value " ++ j.name) (j.expect c) g.2))
+  | none, _, _, _ => .unsupported ("C07 protocol " ++ name)
+  | _, _, _, _ => .unsupported "C07 pair: malformed result"
+
+/-- identical streams: everything is identical, except schedule-dependent messages -/
+def handleDet (name cfg : String) (ids : List Nat) (rhs : String) : Verdict :=
+  match lookup name cfg ids, rhsVal rhs "status", rhsVal rhs "diff", rhsVal rhs "joint" with
+  | some spec, some status, some diff, some joint =>
+    if status != "ok" then .diff "status=ok" else
+    let sched := ((slots ids spec.rounds).filter (·.dep == .ownSched)).map Slot.name
+    let unexpected := (splitComma diff).filter (!sched.contains ·)
+    if !unexpected.isEmpty then
+      .bad "not-a-function-of-the-streams" ("messages differ between two runs with identical streams: " ++ joinComma unexpected)
+    else if !(splitComma joint).isEmpty then
+      .bad "not-a-function-of-the-streams" ("joint values differ between two runs with identical streams: " ++ joint)
+    else .ok
+  | none, _, _, _ => .unsupported ("C07 protocol " ++ name)
+  | _, _, _, _ => .unsupported "C07 det: malformed result"
+
+def handleReads (name cfg : String) (ids : List Nat) (rhs : String) : Verdict :=
+  match lookup name cfg ids with
+  | none => .unsupported ("C07 protocol " ++ name)
+  | some spec =>
+    let got := parseFlags rhs
+    if got.map (·.1) != ids.map toString then .diff ("parties=" ++ joinComma (ids.map toString)) else
+    combine ((ids.zip got).map fun (id, g) =>
+      let want := (spec.reads id).toList
+      let bits := g.2.toList
+      if want.length != bits.length then some (.diff s!"{id}={spec.reads id}") else
+      -- a step that samples a named secret and draws nothing
+      if (want.zip bits).any (fun (w, b) => w == 'S' && b != '1') then
+        some (.bad "no-bytes-drawn" s!"party {id} draws no bytes from its stream in a step that samples a secret (expected {spec.reads id}, observed {g.2})")
+      else if (want.zip bits).any (fun (w, b) => (w == '0') != (b == '0')) then some (.diff s!"{id}={spec.reads id}")
+      else none)
+
+def handleSeq (rhs : String) : Verdict :=
+  match rhsVal rhs "first", rhsVal rhs "joint" with
+  | some f, some j =>
+    if f != "distinct" then .bad "first-message-repeat" "a first message / nonce commitment repeats across consecutive sessions"
+    else if j != "distinct" then .bad "nonce-repeat" "the joint nonce value repeats across consecutive sessions"
+    else .ok
+  | _, _ => .unsupported "C07 seq: malformed result"
+
+def handle (op : String) (args : List String) (rhs : String) : Verdict :=
+  match args with
+  | name :: cfg :: rest =>
+    match (argVal rest "ids").bind parseIds with
+    | none => .unsupported "C07: ids"
+    | some ids =>
+      match op with
+      | "pair" =>
+        match (argVal rest "changed").bind String.toNat? with
+        | some c => handlePair name cfg ids c rhs
+        | none => .unsupported "C07 pair: changed"
+      | "det" => handleDet name cfg ids rhs
+      | "reads" => handleReads name cfg ids rhs
+      | "seq" => handleSeq rhs
+      | _ => .unsupported ("C07 op " ++ op)
+  | _ => .unsupported ("C07 op " ++ op)
 
 end BronVerif.Drive.C07
